@@ -42,10 +42,12 @@ MANIFEST = {
             "deletions and restores of the folder included) that the value the observation reports after each step is the folder's "
             "visible_health_status of that moment - so the visible-only-by-scan theorems speak about the value the agent really gets; "
             "C14_flag_iff_scan_completes: after pre_timestep; apply_timestep the flag of a live folder is set iff a scan of it "
-            "completed in that timestep. Tie: C14_gen_folder_observe (observe as a guarded-effect table, independent of branch order), "
+            "completed in that timestep. Tie: C14_gen_folder_observe_truth (the extractor executes observe symbolically for all 32 "
+            "valuations of its Boolean inputs; the table equals the model's observer on probe values - independent of the shape of "
+            "the control flow), C14_gen_folder_observe (the state-dictionary entries it reads), "
             "C14_gen_pre_chain (pre_timestep path game -> folder, live folders only, unguarded; order of the game step), the flag's "
             "writers in the inventory paired with model events; the rig runs one REAL FolderObservation per folder name after every "
-            "timestep and diffs flag, reported and cached value (family game-order: every 2-step (thorough 3-step) game over 13 "
+            "timestep (one with, one without requires_scan) and diffs flag, reported and cached value (family game-order: every 2-step (thorough 3-step) game over 13 "
             "request lists x durations, enumerated). The fix timing theorems are lifted over the dynamic operations BY NAME "
             "(Props/C14DynTime.lean: C14_dyn_fix_not_early / _completes_on_time / _exact and C14_dyn_install_not_early / _request / _exact "
             "over installs, uninstalls of other items, file-system creation, copies, database restores and tickDb). Finding F-C14-4 "
